@@ -71,7 +71,24 @@ def main():
     c = out["confirm"]
     ok = c.get("applies") and c.get("suite_passes_with_change") and c.get("demo_fails_with_change") and c.get("demo_passes_without_change")
     out["confirmed"] = bool(ok)
-    if ok and props != [""]:
+    if ok and props != [""] and "--worktree" in sys.argv:
+        # development mode: run the checks against a patched scratch worktree (VERIF_REPO) so that
+        # several evaluations can run in parallel and /repo stays untouched
+        wt = tempfile.mkdtemp(prefix="mevr-")
+        os.rmdir(wt)
+        try:
+            sh("git -C /repo worktree add -q --detach %s HEAD" % wt)
+            sh("git apply %s" % os.path.abspath(os.path.join(mdir, "patch.diff")), cwd=wt)
+            for p in props:
+                for s in seeds:
+                    rc, o = sh("cd /verif && VERIF_REPO=%s VERIF_OUT_DIR=%s ./check.py %s --tier %s --seed %d" % (wt, wt + "-out", p, tier, s), timeout=3600)
+                    v = [l for l in o.splitlines() if l.startswith("VIOLATION")]
+                    out["checks"]["%s/seed%d" % (p, s)] = {"rc": rc, "violation": v[:1], "tail": o[-300:] if rc not in (0, 1) else "", "mode": "worktree"}
+        finally:
+            sh("git -C /repo worktree remove --force %s" % wt)
+            shutil.rmtree(wt, ignore_errors=True)
+            shutil.rmtree(wt + "-out", ignore_errors=True)
+    elif ok and props != [""]:
         rc, st = sh("git -C /repo status --porcelain")
         if st.strip():
             print(json.dumps({"error": "/repo not clean: " + st}))
@@ -90,6 +107,21 @@ def main():
         finally:
             sh("git -C /repo checkout -- . && git -C /repo clean -fdq")
     out["detected_by"] = sorted({k.split("/")[0] for k, v in out["checks"].items() if v["rc"] == 1})
+    if "--keep" in sys.argv and out["confirmed"]:
+        kid = sys.argv[sys.argv.index("--keep") + 1]
+        dst = os.path.join("/verif/seeded", kid)
+        os.makedirs(dst, exist_ok=True)
+        for f in ("patch.diff", "demo_test.go"):
+            shutil.copy(os.path.join(mdir, f), dst)
+        notes = open(os.path.join(mdir, "notes.md")).read() if os.path.exists(os.path.join(mdir, "notes.md")) else ""
+        head = subprocess.check_output(["git", "-C", "/repo", "log", "--format=%h", "-1"], text=True).strip()
+        meta = {"id": kid, "breaks_property": props[0], "needs_to_manifest": notes.strip(),
+                "demo": "copy demo_test.go to %s of the repository and run: go test -vet=off -count=1 -run TestMutantDemo ./%s" % (demo_dir(mdir), demo_dir(mdir)),
+                "confirmed_on_repo_head": head, "confirmation": c,
+                "what_was_run": {k: {"exit": v["rc"], "violation": v["violation"]} for k, v in out["checks"].items()},
+                "detected_by": out["detected_by"], "source": "independent sub-agent given only the property text and a scratch worktree"}
+        with open(os.path.join(dst, "meta.json"), "w") as f:
+            json.dump(meta, f, indent=1)
     print(json.dumps(out))
     return 0
 
